@@ -295,7 +295,7 @@ pub fn run(ctx: &mut Ctx) {
             ctx.feature_n("truncations_and_splices", derived.len() as u64);
         }
     }
-    let muts = ctx.budget(300_000, 20_000_000);
+    let muts = ctx.budget(3_000_000, 40_000_000);
     for i in 0..muts {
         let g = &groups[(i % 4) as usize];
         let base = ctx.rng.pick(g.0).clone();
@@ -309,7 +309,7 @@ pub fn run(ctx: &mut Ctx) {
     ctx.feature_n("mutated_texts", muts);
 
     // 4. random UTF-8 and long inputs
-    let rnd = ctx.budget(100_000, 5_000_000);
+    let rnd = ctx.budget(1_000_000, 12_000_000);
     for i in 0..rnd {
         let g = &groups[(i % 4) as usize];
         let t = gentext::random_text(&mut ctx.rng, g.2, 12);
